@@ -165,6 +165,39 @@ def run(ctx):
     finally:
         m.KNOWN_MINECRAFT_VERSION_RECORDS[:] = saved_recs
         m.initglobals(use_known_records=True)
+    # ---- contexts created (and used) BEFORE a rebuild must follow the rebuilt order
+    try:
+        base = [m.Version('a', 10, True), m.Version('b', 20, True), m.Version('c', 30, True), m.Version('d', 40, True)]
+        for trial in range(ctx.scale(30, 300)):
+            m.KNOWN_MINECRAFT_VERSION_RECORDS[:] = base
+            m.initglobals(use_known_records=True)
+            olds = {v: ConnectionContext(protocol_version=v) for v in (10, 20, 30, 40)}
+            for c in olds.values():
+                c.protocol_later_eq(20), c.protocol_earlier(30)          # use them once
+            ins = rng.randrange(0, 5)
+            newv = rng.choice([15, 25, 35, 5, 45, m.PRE | 3])
+            cur = base[:ins] + [m.Version('new', newv, rng.random() < 0.5)] + base[ins:]
+            m.KNOWN_MINECRAFT_VERSION_RECORDS[:] = cur
+            m.initglobals(use_known_records=True)
+            order = []
+            for r in cur:
+                if r.protocol not in order:
+                    order.append(r.protocol)
+            ctx.case(('stale-context', ins, newv))
+            for a in (10, 20, 30, 40):
+                for b in order:
+                    got = (olds[a].protocol_earlier(b), olds[a].protocol_later_eq(b),
+                           olds[a].protocol_in_range(order[0], b))
+                    want = (order.index(a) < order.index(b), order.index(a) >= order.index(b),
+                            order.index(a) < order.index(b))
+                    if got != want:
+                        ctx.violation('a context for %d created before inserting %d and re-initialising answers %r '
+                                      'for (earlier, later_eq, in_range) against %d; the rebuilt order gives %r'
+                                      % (a, newv, got, b, want), {'order': order, 'a': a, 'b': b},
+                                      key={'stale-context': [a, b, newv, ins]})
+    finally:
+        m.KNOWN_MINECRAFT_VERSION_RECORDS[:] = saved_recs
+        m.initglobals(use_known_records=True)
     for line, mo, g in zip(lines, ctx.driver.ask(lines), impl):
         if mo != g:
             ctx.disagree('versions', line[:200], mo[:300], g[:300])
